@@ -583,7 +583,7 @@ func main() {
 		Rule:        "case = graph + extra (representation, relabelling) variants + vertex orders + candidate colourings; non-trivial = the graph has an edge and a non-edge (so omega, alpha, chi are not forced by n) and at least one variant besides dense/identity is run; distinct by case text",
 		Gen:         gen,
 		Exec:        exec,
-		CaseTimeout: 20 * time.Second,
+		CaseTimeout: 120 * time.Second, // the largest constructed cases take ~3 s alone; the box may be 10x oversubscribed
 		MemMB:       4096,
 	})
 }
